@@ -1,12 +1,12 @@
-\* second thorough design config: all frontend kinds (external IP, LB IP, node port on two node-port IPs)
-\* and externalTrafficPolicy, <= 2 environment edits, <= 2 crashes / restarts
+\* second thorough design config: LB IPs (which startupBuildPrev does not adopt) and
+\* externalTrafficPolicy: Local, <= 2 environment edits, <= 2 crashes / restarts at any write point
 CONSTANTS
   Svcs = {1, 2}
   Eps = {1, 2}
-  Opts = {"ext", "lb", "np", "xl"}
+  Opts = {"lb", "xl"}
   EpStates = {"none", "rl", "rr", "nr"}
   InitEpStates = {"rl", "rr"}
-  NPIPs = {"192.168.0.1", "255.255.255.255"}
+  NPIPs = {"192.168.0.1"}
   MaxChanges = 2
   MaxCrashes = 2
   Order <- OrderCode
